@@ -360,6 +360,46 @@ func TestC11_CloseGrid(t *testing.T) {
 	c11.rec.Class("close grid")
 }
 
+// TestC11_LongHistory: one long-lived client serves 80 calls one after the other (virtual time is free). Three
+// histories: every call ends while the receive loop is parked on its full buffer (a blocked matcher, a burst of eight
+// datagrams of its transaction, the first one accepted on release); such calls alternating with plain answered ones;
+// every call running into its timeout. Whatever a call leaves behind per call (a slot, an entry, a goroutine) shows
+// when it has added up: the 80th call behaves like the first.
+func TestC11_LongHistory(t *testing.T) {
+	curT = t
+	for _, v6 := range []bool{false, true} {
+		types := wantTypes(v6)
+		for hist := 0; hist < 3; hist++ {
+			sc := cliScenario{V6: v6, T: 16 * 8, Tries: 1, CloseAt: -1, LogMode: hist % 2}
+			serial := 1
+			for i := 0; i < 80; i++ {
+				start := callStart(i, i*256)
+				c := cliCall{Start: start, Xid: i % 3, Matcher: 1, Want: types[0], CancelAt: -1, Deadline: -1}
+				switch {
+				case hist == 2:
+					// silence: the call times out
+				case hist == 1 && i%2 == 1:
+					sc.Dels = append(sc.Dels, cliDeliver{At: evTick(start + 9), Kind: dgGood, Xid: c.Xid, Typ: c.Want, Serial: serial})
+					serial++
+				default:
+					c.Matcher, c.ReleaseAt = 4, evTick(start+60)
+					for k := 0; k < 8; k++ {
+						typ := types[1]
+						if k == 0 {
+							typ = c.Want
+						}
+						sc.Dels = append(sc.Dels, cliDeliver{At: evTick(start + 1 + 4*k), Kind: dgGood, Xid: c.Xid, Typ: typ, Serial: serial})
+						serial++
+					}
+				}
+				sc.Calls = append(sc.Calls, c)
+			}
+			c11.one(t, sc)
+		}
+	}
+	c11.rec.Class("long history on one client")
+}
+
 // ---- C12 -----------------------------------------------------------------------------
 
 var c12 = cliCheck("C12", "schedule",
